@@ -29,6 +29,7 @@ typedef struct cell {
 	int two;
 	int rl;        /* C11: index+1 into RELAYS[], 0 = relay class from `up` */
 	int v6;        /* IPv6 transport between client and server */
+	int pre;       /* slots taken by other parties before the client starts: the client's userid */
 } cell;
 
 static const char *QT[8] = { "NULL", "PRIVATE", "TXT", "SRV", "MX", "CNAME", "A", "" };
@@ -51,6 +52,7 @@ static void cell_to_cfg(const cell *c, ns_cfg *n)
 	n->nclients = c->two ? 2 : 1;
 	n->succession = c->two == 2;
 	n->ipv6 = c->v6;
+	n->preslots = c->pre;
 	n->warm = c->warm;
 	ns_relay *r = &n->relay;
 	switch (c->up) {
@@ -66,6 +68,7 @@ static void cell_desc(const cell *c, char *b, size_t n)
 {
 	int k = snprintf(b, n, "T=%s O=%s up=%d m=%d M=%d lazy=%d raw=%d lat=%d/%d warm=%d wl=%d two=%d%s", c->qt == 7 ? "auto" : QT[c->qt], c->de ? DE[c->de] : "auto",
 		 c->up, c->fs, c->ml, c->lazy, c->raw, LAT[c->lat][0], LAT[c->lat][1], c->warm, c->wl, c->two, c->v6 ? " ipv6" : "");
+	if (c->pre && k < (int)n) k += snprintf(b + k, n - k, " slot=%d", c->pre);
 	if (c->rl && k < (int)n) {
 		static const char *CS[] = { "keep", "lower", "upper", "random" }, *E8[] = { "clean", "strip", "reject" }, *PU[] = { "keep", "+->-", "_->-" };
 		const ns_relay *r = &RELAYS[c->rl - 1];
@@ -185,10 +188,11 @@ static int add_relay(int qx, int ax, unsigned types, int limit, int edns)
 	RELAYS[nrelays++] = r;
 	return nrelays;
 }
+static int c11_pre;
 static void c11_cell(int qt, int de, int rl)
 {
 	cell c; memset(&c, 0, sizeof c);
-	c.qt = qt; c.de = de; c.ml = 255; c.lazy = 1; c.wl = 5; c.rl = rl;
+	c.qt = qt; c.de = de; c.ml = 255; c.lazy = 1; c.wl = 5; c.rl = rl; c.pre = c11_pre;
 	add_cell(c);
 }
 static void cells_c11(int thorough_)
@@ -201,11 +205,18 @@ static void cells_c11(int thorough_)
 		for (int x = 0; x < 36; x++) for (int s_ = 0; s_ < nsets; s_++) for (int l = 0; l < 2; l++) c11_cell(7, 0, add_relay(x, x, sets[s_], LIM_Q[l].limit, LIM_Q[l].edns));
 		/* forced type and downstream codec through the diagonal relays */
 		for (int qt = 0; qt < 7; qt++) for (int de = 1; de <= 5; de++) { if (de == 5 && qt > 2) continue; for (int x = 0; x < 36; x += 5) c11_cell(qt, de, add_relay(x, x, 0, 512, 1)); }
+		/* the client is not the server's first: userids 9, 10 and 15 (the userid travels as a hex digit in data queries and as a raw byte, Base32-coded, elsewhere) */
+		for (int pre = 9; pre <= 15; pre += (pre == 9 ? 1 : 5)) { c11_pre = pre; for (int x = 0; x < 36; x++) for (int l = 0; l < 2; l++) c11_cell(7, 0, add_relay(x, x, 0, LIM_Q[l].limit, LIM_Q[l].edns)); }
+		c11_pre = 0;
 		return;
 	}
 	for (int qx = 0; qx < 36; qx++) for (int ax = 0; ax < 36; ax++) for (int t = 0; t < 7; t++) for (int l = 0; l < 6; l++) c11_cell(7, 0, add_relay(qx, ax, 1u << t, LIM_T[l].limit, LIM_T[l].edns));
 	for (int x = 0; x < 36; x++) for (unsigned set = 1; set < 128; set++) for (int l = 0; l < 6; l += 5) c11_cell(7, 0, add_relay(x, x, set, LIM_T[l].limit, LIM_T[l].edns));
 	for (int qt = 0; qt < 7; qt++) for (int de = 1; de <= 5; de++) { if (de == 5 && qt > 2) continue; for (int x = 0; x < 36; x++) for (int l = 0; l < 6; l += 5) c11_cell(qt, de, add_relay(x, x, 0, LIM_T[l].limit, LIM_T[l].edns)); }
+	/* every userid 1..15 through every diagonal relay, and 10/15 through the full query x answer product */
+	for (int pre = 1; pre <= 15; pre++) { c11_pre = pre; for (int x = 0; x < 36; x++) for (int l = 0; l < 6; l += 5) c11_cell(7, 0, add_relay(x, x, 0, LIM_T[l].limit, LIM_T[l].edns)); }
+	for (int pre = 10; pre <= 15; pre += 5) { c11_pre = pre; for (int qx = 0; qx < 36; qx++) for (int ax = 0; ax < 36; ax++) c11_cell(7, 0, add_relay(qx, ax, 0, 0, 1)); }
+	c11_pre = 0;
 }
 
 /* ---------------------------------------------------------------- workload */
@@ -214,6 +225,7 @@ typedef struct wpk { int side; int size; int at_ms; int compressible; int dst; }
 #define A_CLA 0x0A000002u
 #define A_CLB 0x0A000003u
 #define A_OUT 0x08080808u
+#define WDST(d) ((d) == A_CLA ? A_CLA + (uint32_t)NC.preslots : (d))     /* client A's tunnel address follows its slot */
 static const wpk WL0[] = { { 1, 60, 100, 0, A_SRV }, { 0, 1100, 150, 0, A_CLA }, { 1, 1100, 160, 0, A_SRV }, { 0, 200, 170, 1, A_CLA }, { 1, 200, 1500, 1, A_SRV }, { 0, 19, 1600, 0, A_CLA },
 	/* larger than any fixed 4 KB buffer on the way, compressible enough to fit 16 fragments everywhere */
 	{ 1, 5000, 1700, 1, A_SRV }, { 0, 5000, 1800, 1, A_CLA }, { 0, 20000, 2600, 1, A_CLA }, { 1, 20000, 2700, 1, A_SRV },
@@ -248,7 +260,7 @@ static void offer_workload(int wl, int64_t t0)
 	unsigned char p[70000];
 	for (int i = 0; i < WLS[wl].n; i++) {
 		const wpk *w = &WLS[wl].p[i];
-		int n = ns_mkpkt(p, w->size, w->dst, i + 1, w->compressible);
+		int n = ns_mkpkt(p, w->size, WDST(w->dst), i + 1, w->compressible);
 		int tun = w->side == 0 ? ns_srv_tun : ns_cli_tun[w->side];
 		vw_tun_offer_at(tun, t0 + (int64_t)w->at_ms * 1000, p, n, i + 1);
 	}
@@ -285,7 +297,7 @@ static int64_t c16_inject_at;
 static int c16_inject_seq = -1, c16_await_after; static c16pos c16_before; static char c16_desc[120];
 static void c16_getpos(c16pos *p)
 {
-	struct tun_user *u = &s_w_users()[0];
+	struct tun_user *u = &s_w_users()[NC.preslots];
 	memset(p, 0, sizeof *p);
 	p->in_seq = u->inpacket.seqno; p->in_frag = u->inpacket.fragment; p->in_len = u->inpacket.len; p->in_off = u->inpacket.offset;
 	p->out_seq = u->outpacket.seqno; p->out_frag = u->outpacket.fragment; p->out_off = u->outpacket.offset; p->out_sent = u->outpacket.sentlen; p->out_len = u->outpacket.len;
@@ -512,7 +524,7 @@ static void measure_caps(void)
 	e = !strcmp(dn, "Base32") ? &ca_base32_ops : !strcmp(dn, "Base64") ? &ca_base64_ops : !strcmp(dn, "Base64u") ? &ca_base64u_ops : &ca_base128_ops;
 	up_chunk_cap = ca_build_hostname(buf + 5, sizeof(buf) - 5, data, sizeof data, NC.topdomain, e, NC.maxlen);
 	struct tun_user *u = s_w_users();
-	down_frag_cap = u[0].fragsize > 4094 ? 4094 : u[0].fragsize;
+	down_frag_cap = u[NC.preslots].fragsize > 4094 ? 4094 : u[NC.preslots].fragsize;
 	if (ca_w_conn() == CONN_RAW_UDP) { up_chunk_cap = 4092; down_frag_cap = 4092; }
 }
 
@@ -522,7 +534,7 @@ static void mark_must(const cell *c)
 	unsigned char p[70000];
 	for (int i = 0; i < WLS[c->wl].n; i++) {
 		const wpk *w = &WLS[c->wl].p[i];
-		int n = ns_mkpkt(p, w->size, w->dst, i + 1, w->compressible);
+		int n = ns_mkpkt(p, w->size, WDST(w->dst), i + 1, w->compressible);
 		int cl = ns_compressed_len(p, n);
 		int must = 1;
 		int via_up = (w->side != 0), via_down = (w->side == 0) || (w->dst == A_CLA || w->dst == A_CLB);
@@ -619,7 +631,7 @@ static void run_recovery_cell(const cell *c, const char *desc)
 		for (int side = 0; side <= 1; side++) {
 			int tag = ++noffer;
 			int64_t at = t0 + 100000 + (int64_t)i * 1000000 + side * 437000;
-			int n = ns_mkpkt(p, (side ? i % 3 == 2 : i % 3 == 0) ? RC_BIG : RC_SIZE, side ? A_SRV : A_CLA, tag, 0);
+			int n = ns_mkpkt(p, (side ? i % 3 == 2 : i % 3 == 0) ? RC_BIG : RC_SIZE, side ? A_SRV : WDST(A_CLA), tag, 0);
 			OFFER[tag].side = side; OFFER[tag].at = at;
 			vw_tun_offer_at(side ? ns_cli_tun[1] : ns_srv_tun, at, p, n, tag);
 		}
@@ -681,7 +693,7 @@ static void run_cell(int job)
 			noffer = 0;
 			for (int i = 0; i < RC_TOTAL_S; i++) for (int side = 0; side <= 1; side++) {
 				int tag = ++noffer; int64_t at = t0 + 100000 + (int64_t)i * 1000000 + side * 437000;
-				int n = ns_mkpkt(p, (side ? i % 3 == 2 : i % 3 == 0) ? RC_BIG : RC_SIZE, side ? A_SRV : A_CLA, tag, 0);
+				int n = ns_mkpkt(p, (side ? i % 3 == 2 : i % 3 == 0) ? RC_BIG : RC_SIZE, side ? A_SRV : WDST(A_CLA), tag, 0);
 				OFFER[tag].side = side; OFFER[tag].at = at;
 				vw_tun_offer_at(side ? ns_cli_tun[1] : ns_srv_tun, at, p, n, tag);
 			}
@@ -735,8 +747,8 @@ static void run_cell(int job)
 	if (!strcmp(PROP, "C11")) {
 		/* which settings were negotiated: outcome classes */
 		struct tun_user *u0 = s_w_users();
-		xp_outcome(0xC1100000ULL ^ ((uint64_t)ca_w_qtype() << 32) ^ ((uint64_t)(unsigned char)ca_w_downenc() << 24) ^ ((uint64_t)(ca_w_dataenc_name()[4] & 0xff) << 16) ^ (uint64_t)(u0[0].fragsize / 64));
-		if ((job % 211) == 0) xp_sample("%s -> settled on qtype %d, upstream %s, downstream '%c', fragment size %d; delivered %d up / %d down", desc, ca_w_qtype(), ca_w_dataenc_name(), ca_w_downenc(), u0[0].fragsize, up, down);
+		xp_outcome(0xC1100000ULL ^ ((uint64_t)ca_w_qtype() << 32) ^ ((uint64_t)(unsigned char)ca_w_downenc() << 24) ^ ((uint64_t)(ca_w_dataenc_name()[4] & 0xff) << 16) ^ (uint64_t)(u0[NC.preslots].fragsize / 64));
+		if ((job % 211) == 0) xp_sample("%s -> settled on qtype %d, upstream %s, downstream '%c', fragment size %d; delivered %d up / %d down", desc, ca_w_qtype(), ca_w_dataenc_name(), ca_w_downenc(), u0[NC.preslots].fragsize, up, down);
 	}
 	{
 		/* outcome class: which tags arrived where, how many repeats, who is alive */
